@@ -124,3 +124,34 @@ pub fn fresh_sandbox(dir: &std::path::Path) -> std::path::PathBuf {
     let k = N.fetch_add(1, std::sync::atomic::Ordering::SeqCst);
     dir.join(format!("sb{k:03}"))
 }
+
+/// Wire encoders of the harness' own (generators must not depend on the encoder under test).
+pub fn raw_ack(n: u16) -> Vec<u8> {
+    vec![0, 4, (n >> 8) as u8, n as u8]
+}
+pub fn raw_data(n: u16, payload: &[u8]) -> Vec<u8> {
+    let mut v = vec![0, 3, (n >> 8) as u8, n as u8];
+    v.extend_from_slice(payload);
+    v
+}
+pub fn raw_error(code: u16, msg: &str) -> Vec<u8> {
+    let mut v = vec![0, 5, (code >> 8) as u8, code as u8];
+    v.extend_from_slice(msg.as_bytes());
+    v.push(0);
+    v
+}
+pub fn raw_oack(opts: &[(&str, &str)]) -> Vec<u8> {
+    let mut v = vec![0, 6];
+    for (k, val) in opts {
+        v.extend_from_slice(k.as_bytes());
+        v.push(0);
+        v.extend_from_slice(val.as_bytes());
+        v.push(0);
+    }
+    v
+}
+/// The eight error codes by number (no use of `from_u16`).
+pub fn error_code(n: u16) -> tftpd::ErrorCode {
+    use tftpd::ErrorCode::*;
+    [NotDefined, FileNotFound, AccessViolation, DiskFull, IllegalOperation, UnknownId, FileExists, NoSuchUser][n as usize % 8]
+}
